@@ -39,7 +39,7 @@ def lake_build(targets):
     rc, out, err = sh(['lake', 'build'] + targets, cwd=LEAN, timeout=3000)
     text = out + err
     axioms = {}
-    for m in re.finditer(r"info: (\S+?):(\d+):\d+: '([^']+)' (depends on axioms: \[([^\]]*)\]|does not depend on any axioms)", text):
+    for m in re.finditer(r"info: (\S+?):(\d+):\d+: '(.+?)' (depends on axioms: \[([^\]]*)\]|does not depend on any axioms)", text):
         axioms[m.group(3)] = [a.strip() for a in (m.group(5) or '').split(',') if a.strip()]
     errors = []
     for m in re.finditer(r"error: (PaneModel/\S+?\.lean):(\d+):(\d+): (.*)", text):
